@@ -136,10 +136,15 @@ def gen_configs(ctx):
         c.update(kw)
         return c
     if ctx.quick:
-        return [(base("all", 2), "light", 2, False, True), (base("latest", 2), "light", 2, False, True)]
+        # strategy all: a chain of two non-fresh iterations (the seed schedule must survive a resume
+        # between them); strategy latest: one non-fresh iteration
+        return [(base("all", 3, fresh=[True, False, False]), "light", 2, False, True),
+                (base("latest", 2, fresh=[True, False]), "light", 2, False, True)]
     return [
         (base("all", 3, n_samples=[1, 2, 1]), "full", 6, True, True),
-        (base("latest", 3, n_samples=[1, 2, 1]), "full", 6, True, True),
+        (base("latest", 3, n_samples=[1, 2, 1], fresh=[True, False, False]), "full", 6, True, True),
+        (base("all", 4, fresh=[True, True, False, False]), "light", 3, False, True),
+        (base("latest", 4, fresh=[bool(x) for x in [True] + list(rng.integers(0, 2, size=3) == 1)]), "kill", 2, False, True),
         (base("all", 2, geovi=True, transition=False, fresh=[True, False], n_samples=2), "light", 2, False, True),
         (base("latest", 3, geovi=True, model="expsum", point_estimates=["b"]), "medium", 4, False, True),
         (base("latest", 2, n_samples=0, transition=False), "kill", 0, False, False),   # MAP: oracle only
@@ -282,6 +287,12 @@ def nres_of(case):
     return [2 * int(ns[min(i, len(ns) - 1)]) for i in range(case["n_iter"])]
 
 
+def fresh_of(case):
+    fr = case.get("fresh", True)
+    fr = fr if isinstance(fr, list) else [fr]
+    return [bool(fr[min(i, len(fr) - 1)]) for i in range(case["n_iter"])]
+
+
 def cps_coq(cps):
     return C.clist(["(%s, %s)" % (C.cnat(k), C.cbool(mode != "flush")) for k, mode, _ in cps])
 
@@ -291,7 +302,7 @@ def chain_check(case, ref, r0, cps, reps):
     (reps[i] = report of run number i; a run whose directory is a snapshot has no report of its own
     killed predecessor beyond the traced prefix)."""
     sg = "SAll" if case["strategy"] == "all" else "SLatest"
-    inst = "fixed_proto %s %s" % (sg, C.clist([C.cnat(x) for x in nres_of(case)]))
+    inst = "fixed_proto %s %s %s" % (sg, C.clist([C.cnat(x) for x in nres_of(case)]), C.clist([C.cbool(b) for b in fresh_of(case)]))
     n = C.cnat(case["n_iter"])
     parts = []
     for i, rep in enumerate(reps):
